@@ -20,6 +20,8 @@
 #
 #############################################################################
 
+import datetime
+
 from dashlive.utils.date_time import from_isodatetime
 
 from .dash_option import DashOption
@@ -38,6 +40,17 @@ def _errors_from_string(value: str) -> list[tuple[int, str]]:
         items.append((int(code, 10), pos))
     return items
 
+def _errors_to_string(value: list[tuple[int, int | datetime.time]] | None) -> str:
+    if not value:
+        return ''
+    items: list[str] = []
+    for code, pos in value:
+        if isinstance(pos, int):
+            items.append(f'{code}={pos}')
+        else:
+            items.append(f'{code}={pos.strftime("%H:%M:%SZ")}')
+    return ','.join(items)
+
 def http_error_factory(use: str, description: str):
     prefix = use[0]
     return DashOption(
@@ -47,6 +60,7 @@ def http_error_factory(use: str, description: str):
         title=f'{description} HTTP errors',
         description=f'Cause an HTTP error to be generated when requesting {description}',
         from_string=_errors_from_string,
+        to_string=_errors_to_string,
         cgi_name=f'{prefix}err',
         cgi_type='<code>=<num|isoDateTime>,..')
 
